@@ -60,6 +60,8 @@ PROT = "ACDEFGHIKLMNPQRSTVWY"
 def gen_seq(rng, kind, minlen=0, maxlen=200):
     n = rng.choice([minlen, 1, 2, 5, 10, 59, 60, 61, 80, 81, 120, rng.randint(minlen, maxlen)])
     n = max(minlen, min(n, maxlen))
+    if rng.random() < 0.03:
+        n = rng.choice([600, 601, 1200, 2405])  # several ORIGIN lines / many wrapped lines
     letters = {"nuc": NUC, "nuc_amb": NUC_AMB, "prot": PROT, "prot_stop": PROT + "*"}[kind]
     return "".join(rng.choice(letters) for _ in range(n))
 
@@ -327,7 +329,7 @@ def gen_genbank(rng, n):
         elif r < 0.88:
             kind = rng.choice(["nuc", "nuc_amb", "prot_stop"])
             seq = gen_seq(rng, kind, 1, 150)
-            ops.append({"op": "typed_annotated", "kind": kind, "seq": seq, "start": rng.choice([1, 1, 5, 1001]),
+            ops.append({"op": "typed_annotated", "kind": kind, "seq": seq, "start": rng.choice([1, 1, 5, 1001, 999999, 123456789]),
                         "features": gen_annotation(rng, max(len(seq), 2)), "medium": rng.choice(MEDIA)})
             size += 2
         elif r < 0.92:
